@@ -412,10 +412,35 @@ func cmdDriveNetIndex(args []string) error {
 		}
 		keep = append(keep, "/*$domain="+strings.Join(ds, "|"))
 	}
-	half := len(keep) / 2
+	// rules whose shortcut has multi-byte characters, and requests whose URL carries the same text: the 5-byte
+	// windows of the index cut through characters on both sides
+	alphabets := []string{"абвгдежзиклмнопрстуфхцчшщыэюя", "广告屏蔽过滤规则网络请求", "äöüßéèêçñ", "abcdefghij"}
+	for i := 0; i < 24; i++ {
+		word := ""
+		for n := 5 + rnd.Intn(6); n > 0; n-- {
+			a := []rune(alphabets[rnd.Intn(len(alphabets))])
+			word += string(a[rnd.Intn(len(a))])
+		}
+		host := fmt.Sprintf("intl%02d.example", i)
+		switch i % 3 {
+		case 0:
+			keep = append(keep, word+"-ad")
+			reqs = append(reqs, reqJSON{URL: "http://" + host + "/x/" + word + "-ad/1.js", FrameURL: "http://" + host + "/", Cpt: "script"})
+		case 1:
+			keep = append(keep, "||"+host+"/"+word+"^")
+			reqs = append(reqs, reqJSON{URL: "http://" + host + "/" + word + "/1.png", FrameURL: "http://" + host + "/", Cpt: "image"})
+		default:
+			keep = append(keep, "||"+word+".example^$third-party")
+			reqs = append(reqs, reqJSON{URL: "http://" + word + ".example/1.png", FrameURL: "http://" + host + "/", Cpt: "image"})
+		}
+	}
+	// three lists: plain; with a byte order mark and a title line; with CRLF line ends.  Where a rule sits in its
+	// list (and so its storage index) must not matter.
+	third := len(keep) / 3
 	st, err := filterlist.NewRuleStorage([]filterlist.RuleList{
-		&filterlist.StringRuleList{ID: 1, RulesText: strings.Join(keep[:half], "\n")},
-		&filterlist.StringRuleList{ID: -2, RulesText: strings.Join(keep[half:], "\n")}})
+		&filterlist.StringRuleList{ID: 1, RulesText: strings.Join(keep[:third], "\n")},
+		&filterlist.StringRuleList{ID: -2, RulesText: "\xef\xbb\xbf! Title: second list\n" + strings.Join(keep[third:2*third], "\n")},
+		&filterlist.StringRuleList{ID: 3, RulesText: "! Title: third list\r\n" + strings.Join(keep[2*third:], "\r\n") + "\r\n"}})
 	if err != nil {
 		return err
 	}
